@@ -213,7 +213,8 @@ inductive Fld where
 
 /-- what `serializer.loads` returned, as far as `__init__` looks at it: anything that does not unpack
 into three (`TypeError`/`ValueError` at `rval, cval, sval = value`), or three fields; the third is the
-state: `some d` when `dict.__init__(self, sval)` accepts it and gives `d`, `none` when it raises. -/
+state: `some d` when it is a mapping, `none` when `isinstance(sval, dict)` fails (since fix f6dc9a1 a `TypeError` raised
+inside the try-block, before the stamps are converted). -/
 inductive Wire where
   | notTriple
   | triple (r c : Fld) (s : Option Data)
@@ -245,24 +246,10 @@ def JV.toFld (strNum : String → Option Nat) : JV → Fld
     | none => .bad
   | _ => .bad
 
-/-- a `[key, value]` pair with a `str` key -/
-def JV.asPair : JV → Option (String × JV)
-  | .arr [.str k, v] => some (k, v)
-  | _ => none
-
-def JV.asPairs : List JV → Option (List (String × JV))
-  | [] => some []
-  | x :: r => match JV.asPair x, JV.asPairs r with
-    | some p, some ps => some (p :: ps)
-    | _, _ => none
-
-/-- `dict.__init__(self, sval)`: a mapping is copied; a list of `[str, value]` pairs is accepted too (later pairs win), so
-is an empty list and the empty string; everything else raises (`none`).  (Lists with other two-element items — e.g.
-two-character strings — are accepted by Python as well; not modelled, not generated.) -/
+/-- `isinstance(sval, dict)` (line 231): only a mapping is a state; everything else (`none`) raises `TypeError` inside
+the try-block and is treated like any other malformed payload -/
 def JV.toState : JV → Option Data
   | .obj d => some d
-  | .arr xs => (JV.asPairs xs).map (fun ps => ps.foldl (fun d kv => dset d kv.1 kv.2) [])
-  | .str s => if s.isEmpty then some [] else none
   | _ => none
 
 /-- `float()` restricted to the strings the harness and the translator generate as stamps: plain ASCII decimal digits are
@@ -286,8 +273,7 @@ def JV.wellFormed (strNum : String → Option Nat) (v : JV) : Bool :=
   | some (a, b, .obj _) => (a.toFld strNum != .bad) && (b.toFld strNum != .bad)
   | _ => false
 
-/-- three fields with convertible stamps whose state is NOT a mapping: outside what `_set_cookie` produces, and not
-turned into an empty state by `__init__` (finding F-C10c) -/
+/-- three fields with convertible stamps whose state is NOT a mapping (the class of the repaired defect F-C10c) -/
 def JV.nonMappingState (strNum : String → Option Nat) (v : JV) : Bool :=
   match v.unpack3 with
   | some (_, _, .obj _) => false
@@ -319,8 +305,8 @@ structure Sess where
   deriving Repr
 
 /-- `CookieSession.__init__` (lines 211-250) given the result of `serializer.loads` (`none`: no cookie, or
-`ValueError`).  Result `none`: `dict.__init__(self, state)` raises (a verified payload whose third
-component is not a mapping — never produced by `_set_cookie`). -/
+`ValueError`).  The result is always `some` since fix f6dc9a1 (`load_total`); before it, a verified payload whose third
+component was not a mapping made `dict.__init__(self, state)` raise (`none`). -/
 def load (cfg : Cfg) (now : Q) (w : Option Wire) : Option Sess :=
   -- renewed, created, state, new  after the two try-blocks
   let (renewed, created, state, new) : Q × Q × Option Data × Bool :=
@@ -328,12 +314,15 @@ def load (cfg : Cfg) (now : Q) (w : Option Wire) : Option Sess :=
     | none => (now, now, some [], true)
     | some .notTriple => (now, now, some [], true)
     | some (.triple r c s) =>
-      match r with
-      | .bad => (now, now, some [], true)
-      | .num rq =>
-        match c with
-        | .bad => (rq, now, some [], true)          -- `renewed` was already assigned
-        | .num cq => (rq, cq, s, false)
+      match s with
+      | none => (now, now, some [], true)           -- `isinstance(sval, dict)` fails: TypeError before any conversion
+      | some d =>
+        match r with
+        | .bad => (now, now, some [], true)
+        | .num rq =>
+          match c with
+          | .bad => (rq, now, some [], true)        -- `renewed` was already assigned
+          | .num cq => (rq, cq, some d, false)
   let state : Option Data :=
     match cfg.timeout with
     | some t => if olderThan now renewed t then some [] else state
